@@ -79,6 +79,7 @@ func (s *swamp) PatchExpired(howMany int32, ops []msgpackpatch.Op, condition *ms
 	for _, treasureObj := range selected {
 		entry := s.applyPatchExpiredOne(treasureObj, ops, condition, meta)
 		results = append(results, entry)
+		verifhook.Point("swamp.patchExpired.afterPatch", int64(len(results)))
 	}
 
 	// Re-insert all selected treasures into the expiration index.
